@@ -32,7 +32,13 @@ def gen_cfg(rng, thorough):
     nl = rng.choice([1, 2, 2, 3] if thorough else [1, 2, 2])
     dim = rng.choice([1, 2])
     nn = sorted([rng.choice([2, 3]) for _ in range(nl)], reverse=True)
-    quad = rng.choice(['RADAU-RIGHT', 'RADAU-RIGHT', 'LOBATTO', 'GAUSS'])
+    if nl > 1 and rng.random() < 0.25:
+        nn[-1] = 1                      # a coarse level with a single collocation node
+        if nl > 2 and rng.random() < 0.5:
+            nn[-2] = 1
+    quad = rng.choice(['RADAU-RIGHT', 'RADAU-RIGHT', 'LOBATTO', 'GAUSS', 'RADAU-LEFT'])
+    if 1 in nn and quad in ('LOBATTO', 'RADAU-LEFT'):
+        quad = 'RADAU-RIGHT'            # LOBATTO needs two nodes; a single left node carries no information
     lam = tuple(F(rng.randint(-6, -1), rng.choice([1, 2])) for _ in range(dim))
     c = tuple(rfrac(rng, -2, 2) for _ in range(dim))
     lamE = tuple(F(rng.randint(-2, 2), 4) for _ in range(dim)); zero = tuple(F(0) for _ in range(dim))
@@ -55,10 +61,12 @@ def gen_cfg(rng, thorough):
                predict_type=(rng.choice([None, 'fine_only', 'pfasst_burnin']) if P > 1 else rng.choice([None, 'fine_only'])) if nl > 1 else None,
                nsweeps=rng.choice([1, 2]) if nl == 1 else [rng.choice([1, 2])] + [1] * (nl - 1),
                initial_guess=rng.choice(['spread', 'copy', 'zero']), do_coll_update=(quad == 'GAUSS') or rng.random() < 0.2)
-    if cfg['num_procs'] > 1 and (quad == 'GAUSS' or cfg['do_coll_update']):
-        # the controller (rightly) refuses PFASST/MSSDC unless uend = u_M: keep the configuration valid
+    cfg['do_coll_update'] = cfg['do_coll_update'] or quad == 'RADAU-LEFT'
+    if cfg['num_procs'] > 1 and nl > 1 and (quad in ('GAUSS', 'RADAU-LEFT') or cfg['do_coll_update']):
+        # the controller (rightly) refuses PFASST unless uend = u_M: keep the configuration valid (single-level multi-step runs may
+        # use any quadrature: the forward transfer then carries the QUADRATURE end value)
         cfg['do_coll_update'] = False
-        if quad == 'GAUSS':
+        if quad in ('GAUSS', 'RADAU-LEFT'):
             for lv in cfg['levels']:
                 lv['quad_type'] = 'RADAU-RIGHT'
     nsteps = P * rng.choice([1, 2])
@@ -105,18 +113,26 @@ def exact_part(ck, rng, thorough):
         for sidx, e in enumerate(posts):
             s0 = e['levels'][0]
             # chain: this step started from exactly the previous step's returned end value
+            copy_mode = bool(L0.sweep.coll.right_is_node and not L0.sweep.params.do_coll_update)
             if s0['u'][0] != prev_end:
                 ck.violation('step %d did not start from the previous step\'s end value' % sidx,
-                             dict(meta, step=sidx, start=[str(v) for v in s0['u'][0]], prev_end=[str(v) for v in prev_end]), match={'kind': 'chain'})
+                             dict(meta, step=sidx, start=[str(v) for v in s0['u'][0]], prev_end=[str(v) for v in prev_end]),
+                             match={'kind': 'chain', 'end_point': 'copy' if copy_mode else 'quadrature', 'multi_step': cfg['num_procs'] > 1,
+                                    'levels': len(cfg['levels']),
+                                    # tolerance-level inexactness (the known communication-order effect) vs a wrong value
+                                    'within_tolerance': bool(max(abs(a - b) for a, b in zip(s0['u'][0], prev_end))
+                                                             <= 10 * restol * max([F(1)] + [abs(v) for v in prev_end]))})
             for x in range(dim):
                 lt = {'GI': lam[x], 'EXPL': lam[x] / 2, 'IMEX': lam[x] + lamE[x], 'MI': lam[x] + lamE[x]}[kind]
                 ct = c[x] * (2 if kind in ('IMEX', 'MI') else 1)
-                Uc = er.collocation_scalar(Q, nodes, dt, e['time'], lt, ct, prev_end[x])
+                # collocation solution from the value the step ACTUALLY started from (the chain itself is checked above)
+                start_x = s0['u'][0][x]
+                Uc = er.collocation_scalar(Q, nodes, dt, e['time'], lt, ct, start_x)
                 if L0.sweep.coll.right_is_node and not L0.sweep.params.do_coll_update:
                     end_c = Uc[-1]
                     kend = F(1)
                 else:
-                    end_c = prev_end[x] + dt * sum(w[m] * (lt * Uc[m] + ct * (e['time'] + dt * nodes[m])) for m in range(M))
+                    end_c = start_x + dt * sum(w[m] * (lt * Uc[m] + ct * (e['time'] + dt * nodes[m])) for m in range(M))
                     kend = dt * sum(abs(w[m]) for m in range(M)) * abs(lt)
                 K = er.inv_norm_inf(Q, M, dt, lt)
                 scale = max(abs(v) for v in s0['u'][0]) if cfg['residual_type'].endswith('rel') else F(1)
